@@ -78,7 +78,32 @@ pub fn gen_case(run_seed: u64, tier: Tier) -> PfCase {
     syms.sort();
     syms.dedup();
     let counts = counts[..syms.len()].to_vec();
-    let arrange = *rng.pick(&[Arrange::Shuffled, Arrange::Shuffled, Arrange::SortedRuns, Arrange::RandomRuns, Arrange::Periodic]);
+    let mut arrange = *rng.pick(&[Arrange::Shuffled, Arrange::Shuffled, Arrange::SortedRuns, Arrange::RandomRuns, Arrange::Periodic]);
+    // one case in six: runs whose lengths sit on the sampling period (2048 occurrences) or one off it, so that the
+    // per-level occurrence counts and the level lengths are congruent to 0, 1 or 2047 modulo the period
+    let (mut syms, mut counts) = (syms, counts);
+    if rng.chance(1, 6) {
+        let palette: Vec<u128> = [0u128, 1, 4, 5, 16, 17, 20, 21, 48, 63, 64, 85, 128, 200, 255, 256, 1023, 4095]
+            .iter()
+            .copied()
+            .filter(|&x| x <= cap)
+            .collect();
+        let k = rng.urange(2, 6).min(palette.len());
+        let mut chosen: Vec<u128> = vec![];
+        while chosen.len() < k {
+            let c = *rng.pick(&palette);
+            if !chosen.contains(&c) {
+                chosen.push(c);
+            }
+        }
+        chosen.sort();
+        if rng.bool() {
+            chosen.reverse();
+        }
+        counts = (0..k).map(|_| *rng.pick(&[1u64, 1, 2047, 2048, 2048, 2049, 4095, 4096, 4097, 6144])).collect();
+        syms = chosen;
+        arrange = *rng.pick(&[Arrange::SortedRuns, Arrange::SortedRuns, Arrange::SortedRuns, Arrange::RandomRuns]);
+    }
     let prob = *frng.pick(&[0u32, 655, 19660, 65536, 65536]);
     let kinds = match frng.below(4) {
         0 => (1u32 << BUGGIFY_KINDS.len()) - 1,
